@@ -92,6 +92,7 @@ var contracts = map[string]*Contract{
 	"bytes.TrimRight":                              {Det: true, Note: "result is a prefix of the argument: 0 <= len(result) <= len(arg)"},
 	"encoding/xml.NewDecoder":                      {Fresh: true, NonNil: []int{0}, Note: "decoder over the reader; Decode(v) on a fresh decoder is Unmarshal(all bytes, v)"},
 	"(*encoding/xml.Decoder).Decode":               {Writes: []int{1}, Note: "canonicalised to xml.Unmarshal when the reader's bytes are known"},
+	"unicode/utf8.EncodeRune":                      {Writes: []int{0}, Pre: "len(p) >= utf8.RuneLen(r)", Note: "panics when the destination is too short for the rune"},
 	"errors.Is":                                    {Note: "compares along the Unwrap chain; reads only"},
 	"errors.Unwrap":                                {Note: "reads only"},
 	"errors.As":                                    {Writes: []int{1}, Note: "stores the match into target"},
